@@ -232,6 +232,12 @@ func (c *inlCtx) collectClosures() {
 					if call, isC := parents[len(parents)-1].(*ast.CallExpr); isC && call.Fun == ast.Expr(id) {
 						isFun = true
 					}
+					// `_ = name` keeps an otherwise unused closure variable alive: not a real use
+					if as, isA := parents[len(parents)-1].(*ast.AssignStmt); isA && len(as.Lhs) == 1 && len(as.Rhs) == 1 && as.Rhs[0] == ast.Expr(id) {
+						if b, isB := as.Lhs[0].(*ast.Ident); isB && b.Name == "_" {
+							isFun = true
+						}
+					}
 				}
 				if !isFun {
 					calledOnly[o] = false
@@ -797,7 +803,17 @@ func (c *inlCtx) tryCall(st ast.Stmt, call *ast.CallExpr, kind callKind, as *ast
 			t = typeStr(v.Type())
 		}
 		bindDecls = append(bindDecls, fmt.Sprintf("var %s %s = %s", b.name, t, c.text(b.arg)))
-		bindDecls = append(bindDecls, fmt.Sprintf("_ = %s", b.name))
+		used := false
+		for _, id := range origIds {
+			if info.Uses[id] == b.obj {
+				used = true
+			}
+		}
+		_, isFuncTyped := b.obj.Type().Underlying().(*types.Signature)
+		if !used || isFuncTyped {
+			// a function-typed binding may lose its last use when its calls are inlined in the next round
+			bindDecls = append(bindDecls, fmt.Sprintf("_ = %s", b.name))
+		}
 	}
 	for i, id := range origIds {
 		if o := info.Uses[id]; o != nil {
